@@ -27,10 +27,10 @@ func planFor(prop, tier string) plan {
 		{TickSpacing: 100, SpreadFactor: "0.0001", Scaled: false, First0: 1000000000000, First1: 1000, RangeUnit: 100},
 	}
 	more := []Config{
-		{TickSpacing: 10, SpreadFactor: "0.01", Scaled: true, First0: 1000000, First1: 1000000, RangeUnit: 100},
+		{TickSpacing: 10, SpreadFactor: "0.001", Scaled: true, First0: 1000000, First1: 1000000, RangeUnit: 100},
 		{TickSpacing: 1000, SpreadFactor: "0.0005", Scaled: true, First0: 1000000, First1: 5000000000, RangeUnit: 1000},
 		{TickSpacing: 1, SpreadFactor: "0.002", Scaled: false, First0: 3, First1: 100000000000000, RangeUnit: 10},
-		{TickSpacing: 100, SpreadFactor: "0.05", Scaled: true, First0: 1000000000, First1: 3, RangeUnit: 200},
+		{TickSpacing: 100, SpreadFactor: "0.005", Scaled: true, First0: 1000000000, First1: 3, RangeUnit: 200},
 	}
 	creates := func(full bool) []Op {
 		ops := []Op{
@@ -70,6 +70,30 @@ func planFor(prop, tier string) plan {
 			p.Configs = append(p.Configs, more...)
 			p.Alpha.Transfer = true
 		}
+	case "C03":
+		// LP/swap sub-alphabet only: it generates the pool states; the swaps under test are the probe
+		// set evaluated in every state (oracle_c03.go).
+		p.Alpha = Alphabet{Creates: creates(!quick), Withdraws: [][2]int64{{1, 1}}, SwapIn: []int64{999, 400000, 30000000}, SwapOut: []int64{250000}}
+		p.Seeds = []string{"init", "overlap", "gap"}
+		if quick {
+			p.Depth, p.SeedDep = 2, 2
+			p.Configs = append(p.Configs, Config{TickSpacing: 1, SpreadFactor: "0.005", Scaled: true, First0: 1000000, First1: 1000000, RangeUnit: 10})
+		} else {
+			p.Depth, p.SeedDep = 3, 2
+			p.Configs = nil
+			for _, ts := range []uint64{1, 100} {
+				for _, sf := range []string{"0", "0.0001", "0.0005", "0.001", "0.002", "0.003", "0.005"} {
+					u := int64(100)
+					if ts == 1 {
+						u = 20
+					}
+					p.Configs = append(p.Configs,
+						Config{TickSpacing: ts, SpreadFactor: sf, Scaled: sf != "0.001", First0: 1000000, First1: 1000000, RangeUnit: u},
+						Config{TickSpacing: ts, SpreadFactor: sf, Scaled: sf == "0.001", First0: 1000000, First1: 5000000000, RangeUnit: u},
+						Config{TickSpacing: ts, SpreadFactor: sf, Scaled: true, First0: 1000000000000, First1: 1000, RangeUnit: u})
+				}
+			}
+		}
 	default:
 		fmt.Fprintln(os.Stderr, "cl: unknown property", prop)
 		os.Exit(2)
@@ -102,7 +126,20 @@ func buildSeed(w *World, name string) (sdk.Context, *Ledger, error) {
 	var ferr error
 	for _, op := range seedOps(name, w.Cfg) {
 		var out string
-		ctx, out = w.Apply(ctx, l, op, func(a, s, d string) { ferr = fmt.Errorf("%s: %s", a, d) })
+		// swaps in a seed may be refused in extreme price regimes (documented refusals); scale the amount
+		// deterministically until one is accepted so that every configuration gets its seed
+		tries := []int64{1}
+		if op.K == "swapin" || op.K == "swapout" {
+			tries = []int64{1, 100, 10000, 1000000}
+		}
+		for _, m := range tries {
+			o := op
+			o.X = op.X * m
+			ctx, out = w.Apply(ctx, l, o, func(a, s, d string) { ferr = fmt.Errorf("%s: %s", a, d) })
+			if out == "ok" {
+				break
+			}
+		}
 		if out != "ok" {
 			return ctx, l, fmt.Errorf("seed %s: op %s: %s", name, op, out)
 		}
@@ -118,6 +155,9 @@ func checker(w *World, prop string, r *core.Result) func(ctx sdk.Context, l *Led
 		case "C01":
 			w.CheckC07(ctx, l, func(a, s, d string) {}, r.Vacuity) // counters only; C07 reports its own violations
 			w.CheckC01(ctx, l, fail, r.Vacuity, r)
+		case "C03":
+			w.CheckC07(ctx, l, func(a, s, d string) {}, r.Vacuity)
+			w.CheckC03(ctx, l, fail, r)
 		}
 	}
 }
@@ -147,6 +187,9 @@ func runReplay(f *core.Flags, r *core.Result) {
 		var out string
 		ctx, out = w.Apply(ctx, l, op, fail)
 		fmt.Printf("step %d %s -> %s\n", i, op, out)
+		pp := w.pool(ctx)
+		fmt.Printf("   pool: tick=%d sqrtP=%s liq=%s bal=%s spread=%s inc=%s positions=%d\n", pp.GetCurrentTick(), pp.GetCurrentSqrtPrice(), pp.GetLiquidity(),
+			bal(w, ctx, pp.GetAddress()), bal(w, ctx, pp.GetSpreadRewardsAddress()), bal(w, ctx, pp.GetIncentivesAddress()), len(l.Pos))
 		chk(ctx, l, fail)
 		r.Transitions++
 		r.States++
@@ -178,7 +221,7 @@ func main() {
 			ctx, l, err := buildSeed(w, seed)
 			if err != nil {
 				// a seed that cannot be built in this configuration is skipped, visibly
-				r.Rejected["seed-unbuildable:"+seed]++
+				r.Rejected["seed-unbuildable:"+seed+" in "+cfg.String()+": "+err.Error()]++
 				continue
 			}
 			ex := core.NewExplorer(sc, f, r)
